@@ -770,7 +770,9 @@ func (d *driver) check(prop, tier string) int {
 			}
 		}
 		raceStats = map[string]any{"sessions": sessions, "searches": searches, "inconclusive_sessions": incon, "race_reports": races, "processes": procs, "budget_s_each": rb,
-			"note": "auxiliary: real goroutine scheduling and real clock under the race detector; not deterministic, replay best effort; the verdict of C13 rests on the deterministic leg"}
+			"instant_stub_sessions":           agg.Stats["raceleg_race_instant_sessions"],
+			"ponderhit_written_behind_the_go": agg.Stats["raceleg_fault_ponderhit_at_search_end"],
+			"note":                            "auxiliary: real goroutine scheduling and real clock under the race detector; not deterministic, replay best effort; the verdict of C13 rests on the deterministic leg. instant_stub_sessions: one-search sessions of the real driver against a stub search that returns at once, whole script readable at once (the select race of DESIGN.md 5.4)"}
 		fmt.Printf("race leg: %d free-running sessions, %d searches, %d inconclusive, %d race reports\n", sessions, searches, incon, races)
 	}
 	if prop == "C08" && os.Getenv("VERIF_RACE_BIN") != "" && os.Getenv("VERIF_NO_RACE_LEG") == "" {
